@@ -323,7 +323,8 @@ func verifyDelayPeriodPassed(
 	currentTimestamp := uint64(ctx.BlockTime().UnixNano())
 	validTime := processedTime + delayPeriod
 	// NOTE: delay period is inclusive, so if currentTimestamp is validTime, then we return no error
-	if validTime > currentTimestamp {
+	// a sum that wraps around uint64 lies beyond any timestamp: the delay cannot have passed
+	if validTime < processedTime || validTime > currentTimestamp {
 		return errorsmod.Wrapf(
 			ErrDelayPeriodNotPassed,
 			"cannot verify packet until time: %d, current time: %d",
